@@ -113,14 +113,14 @@ def run(ctx, rep):
     # ---- what a hostile-but-decodable frame leaves behind: every capabilities / properties / state frame of the sweeps answers one
     # operation, then each operation runs against GOOD frames only - none may raise (e.g. on an emptied list of supported values)
     later, lmeta = [], []
-    decodable = [(n, f) for n, f in frames if n.startswith(("caps-", "props-", "group-")) or n == "id-random"]
+    decodable = [(n, f) for n, f in frames if n.startswith(("caps-", "props-", "group-", "state-trunc")) or n == "id-random"]
     if not ctx.deep:
-        decodable = decodable[::2]
+        decodable = [x for x in decodable if x[0].startswith("state-trunc")] + [x for x in decodable if not x[0].startswith("state-trunc")][::2]
     for k, (name, f) in enumerate(decodable):
         first = (3, 0) if name.startswith("caps-") else (1, 0)
-        ex1 = [[f] if first == (3, 0) else [gstate, f]]
+        ex1 = [[f] if first == (3, 0) else ([f] if name.startswith("state-trunc") else [gstate, f])]
         n1 = max(1, len(D.run_impl([first], ex1)[3]))           # requests the first operation makes (a second page, more queries)
-        for opname in (list(OPS)[k % 5], "refresh"):
+        for opname in (list(OPS) if name.startswith("state-trunc") else (list(OPS)[k % 5], "refresh")):
             later.append(([first, (OPS[opname], 0)], ex1 + [[]] * (n1 - 1) + [[gstate], [gprops], [gstate], [gstate]], k % 256))
             lmeta.append((name, f, opname))
     nl = ctx.n(600, 6000)
